@@ -1620,6 +1620,7 @@ var shapeTargets = []shapeTarget{
 	{"internal/app", "maybeStartTransfers", "SnapshotSender", "if-all", "admission_start"},
 	{"internal/app", "runTransfer", "SnapshotSender", "assign:current", "admission_slot_identity"},
 	{"internal/app", "handlePeerLeft", "SnapshotSender", "if-all", "admission_left"},
+	{"internal/app", "cleanup", "SnapshotSender", "body-stmts", "admission_cleanup"},
 	{"internal/peers", "Add", "Hub", "if-all", "hub_add_and_remove"},
 	{"internal/peers", "Add", "Hub", "go-bodies", "hub_writer"},
 	{"internal/peers", "SendTo", "Hub", "if-all", "hub_sendto"},
